@@ -12,6 +12,8 @@
 (*   eof   {dir, off}          Transmit of the rest and the FIN ; EOF(dir):*)
 (*                             only after close and with read = written    *)
 (*   cut   {note}              Cut(where)                                  *)
+(*   notice {dir, note}        Notice(dir): a transient unreachable notice *)
+(*                             was injected; it must change nothing        *)
 (*   werr / rerr               only SendError ; ReadError: an origin-side  *)
 (*                             cut happened and OriginErrorFatal           *)
 (*   end   {note}              totals: every closed direction saw EOF with *)
@@ -28,7 +30,7 @@ tvars == <<vars, l, skip, nseg, full>>
 
 TInit == Init /\ l = 1 /\ skip = FALSE /\ nseg = 0 /\ full = FALSE
 OtherDir(d) == IF d = "ab" THEN "ba" ELSE "ab"
-WriterEndedT(d) == wClosed[d] \/ (full /\ wClosed[OtherDir(d)])
+WriterEndedT(d) == appClosed[d] \/ (full /\ appClosed[OtherDir(d)])
 
 Ev(e) == l <= Len(Trace) /\ Trace[l].ev = e
 Step == l' = l + 1
@@ -40,6 +42,7 @@ TReset ==
   /\ wClosed' = [d \in Dirs |-> FALSE] /\ finAvail' = [d \in Dirs |-> FALSE]
   /\ rEOF' = [d \in Dirs |-> FALSE] /\ rErr' = [d \in Dirs |-> FALSE]
   /\ conn' = "up" /\ path' = "ok" /\ cutsLeft' = Cuts
+  /\ appClosed' = [d \in Dirs |-> FALSE] /\ notices' = 0
 
 Why ==
   CASE Ev("w") -> IF Trace[l].off # written[D] THEN "write_offset" ELSE IF wClosed[D] THEN "write_after_close" ELSE "write"
@@ -50,6 +53,7 @@ Why ==
                   ELSE IF read[D] + Trace[l].len > written[D] THEN "beyond_written"
                   ELSE IF rEOF[D] THEN "data_after_eof" ELSE "read"
     [] Ev("eof") -> IF ~WriterEndedT(D) THEN "eof_before_close" ELSE IF read[D] # written[D] THEN "eof_before_all_data" ELSE "eof"
+    [] Ev("notice") -> "fatal_notice_kind"
     [] Ev("rerr") -> "read_error"
     [] Ev("werr") -> "write_error"
     [] Ev("end") -> "totals"
@@ -60,13 +64,13 @@ G_w == Trace[l].off = written[D] /\ ~wClosed[D]
 TWrite ==
   /\ Ev("w") /\ ~skip /\ G_w /\ Step
   /\ written' = [written EXCEPT ![D] = @ + Trace[l].len]
-  /\ UNCHANGED <<avail, read, wClosed, finAvail, rEOF, rErr, conn, path, cutsLeft, skip, nseg, full>>
+  /\ UNCHANGED <<avail, read, wClosed, finAvail, rEOF, rErr, conn, path, cutsLeft, appClosed, notices, skip, nseg, full>>
 
 G_close == ~wClosed[D] \/ full
 TClose ==
   /\ Ev("close") /\ ~skip /\ G_close /\ Step
-  /\ wClosed' = [wClosed EXCEPT ![D] = TRUE]
-  /\ UNCHANGED <<written, avail, read, finAvail, rEOF, rErr, conn, path, cutsLeft, skip, nseg, full>>
+  /\ wClosed' = [wClosed EXCEPT ![D] = TRUE] /\ appClosed' = [appClosed EXCEPT ![D] = TRUE]
+  /\ UNCHANGED <<written, avail, read, finAvail, rEOF, rErr, conn, path, cutsLeft, notices, skip, nseg, full>>
 
 \* Transmit as far as this read needs (the datagram layer is not observed), then Read(dir, len)
 G_r == /\ Trace[l].ok /\ Trace[l].off = read[D] /\ Trace[l].len > 0
@@ -75,7 +79,7 @@ TRead ==
   /\ Ev("r") /\ ~skip /\ G_r /\ Step
   /\ read' = [read EXCEPT ![D] = @ + Trace[l].len]
   /\ avail' = [avail EXCEPT ![D] = IF @ < read[D] + Trace[l].len THEN read[D] + Trace[l].len ELSE @]
-  /\ UNCHANGED <<written, wClosed, finAvail, rEOF, rErr, conn, path, cutsLeft, skip, nseg, full>>
+  /\ UNCHANGED <<written, wClosed, finAvail, rEOF, rErr, conn, path, cutsLeft, appClosed, notices, skip, nseg, full>>
 
 \* Transmit of the rest and of the FIN, then EOF(dir).  Deviation named in Bridge.tla (WriterEnded): when a
 \* full-close endpoint (TCP / Unix socket) is in the path, the reader's own close tears both directions down,
@@ -85,15 +89,24 @@ TEOF ==
   /\ Ev("eof") /\ ~skip /\ G_eof /\ Step
   /\ avail' = [avail EXCEPT ![D] = written[D]] /\ finAvail' = [finAvail EXCEPT ![D] = TRUE]
   /\ rEOF' = [rEOF EXCEPT ![D] = TRUE]
-  /\ wClosed' = [wClosed EXCEPT ![D] = TRUE]
-  /\ UNCHANGED <<written, read, rErr, conn, path, cutsLeft, skip, nseg, full>>
+  /\ wClosed' = [wClosed EXCEPT ![D] = TRUE] /\ appClosed' = [appClosed EXCEPT ![D] = TRUE]
+  /\ UNCHANGED <<written, read, rErr, conn, path, cutsLeft, notices, skip, nseg, full>>
 
 TCut ==
   /\ Ev("cut") /\ Step
   /\ LET where == Trace[l].note IN
        /\ cutsLeft' = cutsLeft \ {where}
        /\ path' = IF where = "origin" THEN "origin_window" ELSE path
-  /\ UNCHANGED <<written, avail, read, wClosed, finAvail, rEOF, rErr, conn, skip, nseg, full>>
+  /\ UNCHANGED <<written, avail, read, wClosed, finAvail, rEOF, rErr, conn, appClosed, notices, skip, nseg, full>>
+
+\* Notice(dir): a transient notice ('message expired' / 'blocked by firewall') about the connection's addresses was
+\* injected at the node that writes direction dir; only these kinds are environment actions of Stream.tla
+G_notice == Trace[l].note \in {"message expired", "blocked by firewall"}
+TNotice ==
+  /\ Ev("notice") /\ ~skip /\ G_notice /\ Step
+  /\ notices' = notices + 1
+  /\ wClosed' = IF NoticeEndsStream THEN [wClosed EXCEPT ![D] = TRUE] ELSE wClosed
+  /\ UNCHANGED <<written, avail, read, finAvail, rEOF, rErr, conn, path, cutsLeft, appClosed, skip, nseg, full>>
 
 \* an error is a behaviour of the spec only as SendError (origin-side cut, code as it is) followed by ReadError
 G_err == OriginErrorFatal /\ ~("origin" \in cutsLeft) /\ ("origin" \in Cuts)
@@ -101,16 +114,16 @@ TErr ==
   /\ (Ev("rerr") \/ Ev("werr")) /\ ~skip /\ G_err /\ Step
   /\ conn' = "aborted"
   /\ rErr' = IF Ev("rerr") THEN [rErr EXCEPT ![D] = TRUE] ELSE rErr
-  /\ UNCHANGED <<written, avail, read, wClosed, finAvail, rEOF, path, cutsLeft, skip, nseg, full>>
+  /\ UNCHANGED <<written, avail, read, wClosed, finAvail, rEOF, path, cutsLeft, appClosed, notices, skip, nseg, full>>
 
 \* a full-close endpoint may report the torn-down connection as a reset instead of EOF: accepted only as an
 \* end-of-stream after a complete exchange (the reader itself has closed and has read everything)
-G_reset == full /\ Ev("rerr") /\ wClosed[OtherDir(D)] /\ read[D] = written[D] /\ ~rEOF[D]
+G_reset == full /\ Ev("rerr") /\ appClosed[OtherDir(D)] /\ read[D] = written[D] /\ ~rEOF[D]
 TResetAsEOF ==
   /\ Ev("rerr") /\ ~skip /\ ~G_err /\ G_reset /\ Step
-  /\ rEOF' = [rEOF EXCEPT ![D] = TRUE] /\ wClosed' = [wClosed EXCEPT ![D] = TRUE]
+  /\ rEOF' = [rEOF EXCEPT ![D] = TRUE] /\ wClosed' = [wClosed EXCEPT ![D] = TRUE] /\ appClosed' = [appClosed EXCEPT ![D] = TRUE]
   /\ avail' = [avail EXCEPT ![D] = written[D]] /\ finAvail' = [finAvail EXCEPT ![D] = TRUE]
-  /\ UNCHANGED <<written, read, rErr, conn, path, cutsLeft, skip, nseg, full>>
+  /\ UNCHANGED <<written, read, rErr, conn, path, cutsLeft, notices, skip, nseg, full>>
 
 \* totals: unless the connection was aborted (or the harness gave up: note "inconclusive"), what was closed was seen to the end
 G_end == \/ Trace[l].note = "inconclusive" \/ conn = "aborted"
@@ -120,14 +133,14 @@ TEnd ==
   /\ UNCHANGED <<vars, skip, nseg, full>>
 
 Accepts == \/ (Ev("w") /\ G_w) \/ (Ev("close") /\ G_close) \/ (Ev("r") /\ G_r) \/ (Ev("eof") /\ G_eof)
-           \/ ((Ev("rerr") \/ Ev("werr")) /\ G_err) \/ G_reset \/ (Ev("end") /\ G_end) \/ Ev("cut")
+           \/ (Ev("notice") /\ G_notice) \/ ((Ev("rerr") \/ Ev("werr")) /\ G_err) \/ G_reset \/ (Ev("end") /\ G_end) \/ Ev("cut")
 TBad ==
   /\ l <= Len(Trace) /\ Trace[l].ev \notin {"reset", "cut"} /\ Step
   /\ \/ skip /\ skip' = TRUE
      \/ ~skip /\ ~Accepts /\ skip' = TRUE /\ PrintT(<<"REJECT", l, Trace[l].ev, Why>>)
   /\ UNCHANGED <<vars, nseg, full>>
 
-TNext == TResetAsEOF \/ TReset \/ TWrite \/ TClose \/ TRead \/ TEOF \/ TCut \/ TErr \/ TEnd \/ TBad
+TNext == TNotice \/ TResetAsEOF \/ TReset \/ TWrite \/ TClose \/ TRead \/ TEOF \/ TCut \/ TErr \/ TEnd \/ TBad
 TSpec == TInit /\ [][TNext]_tvars
 
 Done == l = Len(Trace) + 1 => PrintT(<<"DONE", l - 1, nseg>>)
